@@ -39,7 +39,6 @@ use dmntk_feel::values::{Value, Values, VALUE_FALSE, VALUE_TRUE};
 use dmntk_feel::{value_null, FeelDate, FeelDateTime, FeelDaysAndTimeDuration, FeelNumber, FeelTime, FeelYearsAndMonthsDuration, Name, Scope, ToFeelString};
 use regex::Regex;
 use std::borrow::Borrow;
-use std::cmp::Ordering;
 use std::convert::TryFrom;
 
 /// Builds null value with invalid argument type message.
@@ -893,23 +892,14 @@ pub fn sort(list: &Value, ordering_function: &Value) -> Value {
   if let Value::List(items) = list.clone() {
     if let Value::FunctionDefinition(parameters, body, _) = ordering_function {
       if parameters.len() == 2 {
-        let mut elements = items.as_vec().clone();
-        elements.sort_by(|x, y| {
+        let mut precedes = |x: &Value, y: &Value| {
           let mut ctx = FeelContext::default();
           ctx.set_entry(&parameters[0].0, x.clone());
           ctx.set_entry(&parameters[1].0, y.clone());
           let scope: Scope = ctx.into();
-          if let Value::Boolean(result) = body.evaluate(&scope) {
-            if result {
-              Ordering::Less
-            } else {
-              Ordering::Equal
-            }
-          } else {
-            Ordering::Equal
-          }
-        });
-        Value::List(Values::new(elements))
+          matches!(body.evaluate(&scope), Value::Boolean(true))
+        };
+        Value::List(Values::new(merge_sort(items.as_vec().clone(), &mut precedes)))
       } else {
         value_null!("sort: ordering function should take exactly two arguments")
       }
@@ -919,6 +909,27 @@ pub fn sort(list: &Value, ordering_function: &Value) -> Value {
   } else {
     value_null!("sort: expected a list of values as a first argument")
   }
+}
+
+/// Stable merge sort. The ordering function comes from the evaluated model and may be
+/// anything, also not a strict weak order; the sorting functions of the standard library
+/// are allowed to panic in such case, this one always returns some permutation of the elements.
+fn merge_sort<F: FnMut(&Value, &Value) -> bool>(mut elements: Vec<Value>, precedes: &mut F) -> Vec<Value> {
+  if elements.len() < 2 {
+    return elements;
+  }
+  let right = merge_sort(elements.split_off(elements.len() / 2), precedes);
+  let left = merge_sort(elements, precedes);
+  let mut merged = Vec::with_capacity(left.len() + right.len());
+  let (mut left, mut right) = (left.into_iter().peekable(), right.into_iter().peekable());
+  while let (Some(l), Some(r)) = (left.peek(), right.peek()) {
+    // the element of the right half goes first only when it precedes the element of the left half
+    let next = if precedes(r, l) { right.next() } else { left.next() };
+    merged.extend(next);
+  }
+  merged.extend(left);
+  merged.extend(right);
+  merged
 }
 
 ///
